@@ -174,7 +174,7 @@ func run(args []string) {
 	seed := fs.Int64("seed", 1, "seed")
 	shard := fs.String("shard", "0/1", "i/n")
 	nreps := fs.Int("reps", 1, "concretisations per (string, position) for strings longer than 2")
-	nrepsShort := fs.Int("reps-short", 3, "concretisations per (string, position) for strings of length <= 2")
+	nrepsShort := fs.Int("reps-short", 1, "concretisations per (string, position) for strings of length 2 (3 for shorter ones)")
 	posFilter := fs.String("positions", "", "substring filter on position names")
 	cpuprof := fs.String("cpuprofile", "", "write a CPU profile")
 	tier := fs.String("tier", "quick", "quick: strings longer than 2 go to the primary positions only (one host shape, 1/4 of them per string; all LIKE positions)")
@@ -225,7 +225,9 @@ func run(args []string) {
 				continue
 			}
 			k := *nreps
-			if len(cs.S) <= 2 {
+			if len(cs.S) <= 1 {
+				k = 3
+			} else if len(cs.S) == 2 {
 				k = *nrepsShort
 			}
 			h := fnv.New64a()
